@@ -12,14 +12,14 @@ Ballot = cls('droop.election.Election.Ballot')
 def count_entry(E):
     "state in which Election.count() hands over to rule.count(): nobody elected or defeated yet, a valid profile"
     s = E.electionProfile.nSeats
-    return and_(ghost('nE') == 0, ghost('nD') == 0, ghost('nP') == 0, s >= 1, s <= ghost('nH'),
+    return and_(is_the_election(E), ghost('nE') == 0, ghost('nD') == 0, ghost('nP') == 0, s >= 1, s <= ghost('nH'),
                 E.electionProfile.nBallots >= ghost('nH'), E.round == 0,
                 forall('ref:droop.election.Election.Ballot',
                        lambda b: implies(is_ballot(b), and_(b.index == 0, b.weight == E.V1, seq_len(b.ranking) >= 1, b.index <= seq_len(b.ranking),
                                                             is_whole(b.multiplier)))))
 
 
-WIGM_COUNTS_FIXED = ['droop.rules.wigm_prf.Rule.count', 'droop.rules.cfer.Rule.count', 'droop.rules.scotland.Rule.count']
+WIGM_COUNTS_FIXED = ['droop.rules.wigm_prf.Rule.count', 'droop.rules.scotland.Rule.count']
 
 
 @contract(WIGM_COUNTS_FIXED, props=['C01', 'C09'])
@@ -37,7 +37,7 @@ def wigm_family_count(self: 'any_rule'):
     modifies_ghost('nH', 'nE', 'nD', 'nP', 'nlog', 'lasttag', 'lastmsg')
 
 
-@loops(['droop.rules.wigm_prf.Rule.count'], anchor='while#1')
+@loops(['droop.rules.wigm_prf.Rule.count', 'droop.rules.scotland.Rule.count'], anchor='while#1')
 def wigm_prf_main_loop(self):
     E = self.E
     invariant(forall('ref:droop.candidate.Candidate',
